@@ -378,6 +378,8 @@ def run(tier, seed, t0):
         d = dimpl.get(r['cid'])
         if d is None or not d.startswith('ok '):
             classes['value:undecodable'] += 1
+            # the implementation does not decode its own bytes (or the child died on them): C01's business, but never silence
+            disagreements.append({'what': 'deserialize of the implementation\'s own bytes of %s %s gives %s' % (r['type'], r['repr'][:120], str(d)[:160])})
             continue
         logical = d[3:].rsplit(' ', 1)[0]
         csx, c = conts[r['tid']]
